@@ -12,6 +12,17 @@ family has three value modes per method:
             one argument is THE SAME instance (body=[item, item]; a model whose two fields and list field hold one sub-model
             object).  The expected JSON is the instance's JSON repeated - sharing an object is not a cycle.
 
+  concurrent : the SCHEDULE is a dimension too - "awaiting the method issues exactly one request carrying the caller's
+            arguments" has to hold while another call is in flight on the same client.  A second client is built on ONE bundled
+            HttpxTransport whose OAuth2Auth refresh callback awaits a Future the observer controls.  For every pair
+            (method i, method i+1) (cyclic over the methods of a tag client; a single method is paired with itself) the first
+            call is started and runs until it is suspended inside the plug-in (or finishes), then the second call runs to
+            completion, then the Future is resolved and the first call finishes: exactly the interleaving Enter(a) Suspend(a)
+            Enter(b) .. Put(b) Resume(a) Put(a) of specs/MC_WireSched.tla, no sleeps.  The two calls use disjoint token sets
+            (different Synth offsets); a captured request is attributed to the call in whose task the transport was entered.
+            One record per call, judged by the unchanged monitor.  `strip_headers` names what the schedule machinery itself
+            adds to the wire (the plug-in's Authorization header, the configured default headers).
+
 Each record carries `mode` and, for falsy calls, `falsy` = the python name of the falsy argument.
 """
 
@@ -19,6 +30,7 @@ from __future__ import annotations
 
 import asyncio
 import dataclasses
+import importlib
 import inspect
 import typing
 from typing import Any
@@ -161,6 +173,110 @@ def obs_wire4(job: dict) -> Any:
                         reused += syn.reused
                     if reused:
                         run(tc, pname, mn, fn, kwargs, expect, [x for x in opt if x not in names], "aliased")
+        if job.get("concurrent", True):
+            out += concurrent_calls(job, d, loop)
     finally:
         loop.close()
+    return out
+
+
+CONC_TOKEN = "tok-conc"
+
+
+def _conc_plan(fn, hints: dict, offset: int) -> tuple[dict, dict, list[str]]:
+    """Required arguments, every positional optional argument and the first keyword-only optional one (operations with several
+    content types take their content arguments keyword-only and allow exactly one)."""
+    sig = inspect.signature(fn)
+    syn = Synth()
+    syn.k = offset
+    kwargs, expect, omitted = {}, {}, []
+    took_kwonly = False
+    for p in sig.parameters.values():
+        if p.name == "self" or p.kind in (p.VAR_POSITIONAL, p.VAR_KEYWORD):
+            continue
+        if p.default is inspect._empty:
+            pass
+        elif p.default is not None:
+            continue  # selector
+        elif p.kind is p.KEYWORD_ONLY:
+            if took_kwonly:
+                omitted.append(p.name)
+                continue
+            took_kwonly = True
+        kwargs[p.name], expect[p.name] = syn.make(hints.get(p.name, inspect._empty))
+    return kwargs, expect, omitted
+
+
+def concurrent_calls(job: dict, d: dict, loop) -> list[dict]:
+    corep = job.get("core") or job["pkg"] + ".core"
+    tm = importlib.import_module(corep + ".http_transport")
+    try:
+        am = importlib.import_module(corep + ".auth.plugins")
+    except ImportError:
+        am = importlib.import_module(corep + ".auth")
+    state: dict[str, Any] = {"gate": None, "waiting": False, "owner": {}}
+
+    async def refresh(tok: str) -> str:
+        gate = state["gate"]
+        if gate is not None and asyncio.current_task() is state.get("first"):
+            state["waiting"] = True
+            await gate
+        return tok
+
+    def handler(req: httpx.Request) -> httpx.Response:
+        state["owner"].setdefault(asyncio.current_task(), []).append(capture(req))
+        return httpx.Response(200, json={})
+
+    obs_wire._HANDLER[0] = handler
+    dh = dict(job.get("default_headers") or {})
+    transport = tm.HttpxTransport("http://srv.test", auth=am.OAuth2Auth(CONC_TOKEN, refresh_callback=refresh), default_headers=dh or None)
+    client = make_client(job, d, transport)
+    strip = [["authorization", "Bearer " + CONC_TOKEN]] + [[k.lower(), v] for k, v in dh.items()]
+    out: list[dict] = []
+
+    async def pair(tc, pname, a, b):
+        (mna, fna), (mnb, fnb) = a, b
+        ka, ea, oa = _conc_plan(fna, _hints(fna), 0)
+        kb, eb, ob = _conc_plan(fnb, _hints(fnb), 40)
+        state.update(gate=loop.create_future(), waiting=False, owner={})
+        ta = loop.create_task(_call(getattr(tc, mna), ka, _nature(fna)))
+        state["first"] = ta
+        for _ in range(200):  # until the first call is parked inside the plug-in (or is over)
+            if state["waiting"] or ta.done():
+                break
+            await asyncio.sleep(0)
+        tb = loop.create_task(_call(getattr(tc, mnb), kb, _nature(fnb)))
+        try:
+            rb = await asyncio.wait_for(tb, 20)
+        finally:
+            if not state["gate"].done():
+                state["gate"].set_result(None)
+        ra = await asyncio.wait_for(ta, 20)
+        for mn, kw, ex, om, res, task, role, partner in ((mna, ka, ea, oa, ra, ta, "suspended" if state["waiting"] else "not_suspended", mnb), (mnb, kb, eb, ob, rb, tb, "overtaking", mna)):
+            out.append(
+                {
+                    "prop": pname,
+                    "cls": type(tc).__name__,
+                    "method": mn,
+                    "mode": "concurrent",
+                    "falsy": "",
+                    "role": role,
+                    "partner": partner,
+                    "strip_headers": strip,
+                    "args": {k: (ex[k] if ex[k] is not None else "__none__") for k in kw},
+                    "omitted": om,
+                    "requests": list(state["owner"].get(task, [])),
+                    "outcome": res if res["kind"] == "raise" else {"kind": res["kind"]},
+                }
+            )
+
+    stride = max(1, int(job.get("pair_stride", 1)))
+    for pname in sorted(d["props"]):
+        try:
+            tc = getattr(client, pname)
+        except Exception:  # noqa: BLE001
+            continue
+        ms = list(_methods(type(tc)).items())
+        for i in range(0, len(ms), stride):
+            loop.run_until_complete(pair(tc, pname, ms[i], ms[(i + 1) % len(ms)]))
     return out
